@@ -241,7 +241,7 @@ def eat_chunk_feeds_regions_added_by_post_process():
     insp.new_region('old', old)
     old_was_complete = old.complete
     insp.eat_chunk(S[p0:p])
-    check('eat_chunk/post_process-called-once', insp.pp_calls == 1)
+    check('eat_chunk/post_process-called', insp.pp_calls >= 1)
     check('eat_chunk/old-region-fed-exactly-once', in_sync(old, S, p))
     if add:
         new = insp.region('new')
@@ -252,6 +252,47 @@ def eat_chunk_feeds_regions_added_by_post_process():
     check('eat_chunk/old-region-complete-callback',
           insp.completed.count('old')
           == (1 if (old.complete and not old_was_complete) else 0))
+
+
+@proof('C01', targets=[(FI, 'FileInspector.eat_chunk'),
+                       (FI, 'FileInspector.delete_region'),
+                       (FI, 'FileInspector.new_region')])
+def eat_chunk_tracks_regions_by_object_not_by_name():
+    """post_process may delete a region and re-create one under the same
+    name (VMDK relocates its descriptor this way).  The replacement is a new
+    region: it is fed the current chunk, and region_complete(name) fires when
+    *it* becomes complete, whether or not the deleted one had been
+    complete."""
+    M = load(FI)
+    S, p0, p = stream_and_chunk()
+    o1 = fresh_int('old.offset', 0)
+    L1 = fresh_int('old.length', 0)
+    o2 = fresh_int('new.offset', p0)
+    L2 = fresh_int('new.length', 0)
+
+    class Relocating(M.RawFileInspector):
+        def post_process(self):
+            if not self.relocated:
+                self.relocated = True
+                self.delete_region('d')
+                self.new_region('d', M.CaptureRegion(o2, L2))
+
+        def region_complete(self, name):
+            self.completed.append(name)
+
+    insp = Relocating()
+    insp.relocated = False
+    insp.completed = []
+    insp._total_count = p0
+    old = M.CaptureRegion(o1, L1)
+    old.data = S[o1:min(p0, o1 + L1)]
+    insp.new_region('d', old)
+    insp.eat_chunk(S[p0:p])
+    new = insp.region('d')
+    check('eat_chunk/replacement-is-the-registered-region', new is not old)
+    check('eat_chunk/replacement-in-sync', in_sync(new, S, p))
+    check('eat_chunk/replacement-completion-reported-exactly-once',
+          insp.completed.count('d') == (1 if new.complete else 0))
 
 
 @proof('C01', targets=[(FI, 'FileInspector.finish'),
@@ -335,6 +376,15 @@ CANARIES = [
          old="        self._total_count += len(chunk)\n\n        # Run through the regions we know of to see if they want this\n        # data\n        self._capture(chunk)\n",
          new="        # Run through the regions we know of to see if they want this\n        # data\n        self._capture(chunk)\n        self._total_count += len(chunk)\n",
          expect='eat_chunk/'),
+    dict(name='completion-tracked-by-name', file=FI,
+         proofs=['eat_chunk_tracks_regions_by_object_not_by_name'],
+         edits=[("        pre_complete = {region for region in self._capture_regions.values()\n",
+                 "        pre_complete = {name for name, region in self._capture_regions.items()\n"),
+                ("        post_complete = {region for region in self._capture_regions.values()\n",
+                 "        post_complete = {name for name, region in self._capture_regions.items()\n"),
+                ("        for region in post_complete - pre_complete:\n            self.region_complete(self.region_name(region))",
+                 "        for region in post_complete - pre_complete:\n            self.region_complete(region)")],
+         expect='replacement-completion'),
     dict(name='new-regions-not-fed-current-chunk', file=FI,
          proofs=['eat_chunk_feeds_regions_added_by_post_process'],
          old='        if new_regions:\n', new='        if False:\n',
